@@ -109,12 +109,15 @@ class ParseTimeout(argparse.Action):
 
     @staticmethod
     def unparse(value: float) -> str:
-        # less than 1s, render as ms
-        if value < 1:
-            return f"{int(value * 1000)}ms"
+        # less than 1s, render as ms, otherwise render as s
+        text = f"{int(value * 1000)}ms" if value < 1 else f"{int(value)}s"
 
-        # otherwise, render as s
-        return f"{int(value)}s"
+        # the integer rendering truncates (e.g. 1.5 -> "1s"): only use it when it is lossless,
+        # otherwise fall back to fractional seconds (repr round-trips floats exactly)
+        if ParseTimeout.parse(text) != value:
+            return f"{value!r}s"
+
+        return text
 
 
 class ParseCSVTraceEvent(argparse.Action):
